@@ -472,6 +472,11 @@ MUTATIONS = {
     "te_nonascii": _te_variant("chun\xe4ked"),
     "te_kelvin": _te_variant("chun\xe2\x84\xaaed"),
     "te_quoted": _te_variant('"chunked"'),
+    # Unicode white space (UTF-8 encoded) next to the coding name: not OWS, so not "chunked"
+    "te_unicode_space": lambda segs, rng: _te_variant(
+        (lambda sp, w: {0: sp + "chunked", 1: "chunked" + sp, 2: sp + "chunked" + sp, 3: "gzip, " + sp + "chunked"}[w])(
+            rng.choice(["\u0085", "\u00a0", "\u1680", "\u2000", "\u2003", "\u200a", "\u2028", "\u2029", "\u202f",
+                        "\u205f", "\u3000"]).encode("utf-8").decode("latin-1"), rng.randrange(4)))(segs, rng),
     "te_two_fields": m_te_two_fields,
     "bare_lf": m_bare_lf,
     "bare_cr_terminator": m_bare_cr_terminator,
